@@ -2814,7 +2814,7 @@ int link_function_mips(
         }
 
         opcode = opcode & 0xfc000000;
-        opcode |= address >> 2;
+        opcode |= (address >> 2) & 0x03ffffff;
       }
     }
 
